@@ -73,6 +73,7 @@ TEuler == /\ IsEv("euler") /\ Euler(Ev.retried)
           /\ Ev.fresh = (linkQ = LatestQ /\ HeldEqualsBuild(lap, grad, LatestQ))
           /\ OpsObs(lap, grad)
           /\ Ev.term = tv'
+          /\ Ev.stepfresh = stepFresh'      \* the step recomputed with freshly built operators gives the same psi
 
 TInduced == /\ IsEv("induced")
             /\ \E again \in BOOLEAN : Induced(Ev.chg, again)
@@ -88,7 +89,7 @@ TEnd == /\ IsEv("end") /\ pc = "idle" /\ pc' = "end"
         /\ T.driven => /\ Ev.nonterm_evolved         \* sites outside terminals are never pinned
                        /\ Ev.nonterm_differs
                        /\ (cfg.v = "none" => Ev.term_evolved)
-        /\ UNCHANGED <<cfg, hist, aliasvars, opsvars, step, s, curA, prevA, ind, tv, drifted>>
+        /\ UNCHANGED <<cfg, hist, aliasvars, opsvars, step, s, curA, prevA, ind, tv, drifted, memoLap, stepFresh>>
 
 TNext == \/ TOpsCall
          \/ TCtor \/ TField \/ TLinks \/ TEuler \/ TInduced \/ TFinish \/ TEnd
@@ -112,5 +113,6 @@ TrOperatorsMatchLatestA == Chk("OperatorsMatchLatestA", OperatorsMatchLatestA)
 TrPinnedSitesStayPinned == Chk("PinnedSitesStayPinned", PinnedSitesStayPinned)
 TrUnsetMeansFree == Chk("UnsetMeansFree", UnsetMeansFree)
 TrNoScreeningNoInduced == Chk("NoScreeningNoInduced", NoScreeningNoInduced)
+TrEulerUsesLatestOperators == Chk("EulerUsesLatestOperators", EulerUsesLatestOperators)
 Progress == PrintT(<<"AT", tid, l>>)
 =============================================================================
